@@ -108,6 +108,36 @@ def run(ctx):
                                 ('passed_to', 'addCallback', 0))
     send_error = nested_by_role(fi, 'send_error',
                                 ('passed_to', 'addErrback', 0))
+    # the callbacks may also be METHODS that get the call as extra arguments:
+    # d.addCallback(self._sendReturn, msg, m)
+    cb_args = {}
+
+    def method_callback(meth_name):
+        for n in prog._iter_scope(fi.node):
+            if isinstance(n, ast.Call) and \
+                    isinstance(n.func, ast.Attribute) and \
+                    n.func.attr == meth_name and n.args and \
+                    isinstance(n.args[0], ast.Attribute) and \
+                    isinstance(n.args[0].value, ast.Name) and \
+                    n.args[0].value.id == 'self' and fi.cls is not None:
+                t = prog.lookup_method(fi.cls, n.args[0].attr)
+                if t is None or not all(isinstance(a, ast.Name)
+                                        for a in n.args[1:]):
+                    continue
+                ps = t.params()
+                if len(ps) < 2 + len(n.args) - 1:
+                    continue
+                # the extra arguments are the dispatcher's own variables:
+                # the names the closure form reads as free variables
+                cb_args[t.qualname] = {
+                    ps[2 + i]: ('free', a.id)
+                    for i, a in enumerate(n.args[1:])}
+                return t
+        return None
+    if send_reply is None:
+        send_reply = method_callback('addCallback')
+    if send_error is None:
+        send_error = method_callback('addErrback')
     n_dispatch = n_early = 0
     exp = ('attr', msg, 'expectReply')
     o_term = None
@@ -204,6 +234,8 @@ def run(ctx):
                     for a in r[3]:
                         if kind(a) == 'funcref':
                             names.append((r[2][2], a[1].split('.')[-1]))
+                        elif kind(a) == 'bound' and a[2] in cb_args:
+                            names.append((r[2][2], a[2].split('.')[-1]))
                 ok = send_reply is not None and send_error is not None \
                     and names == [('addCallback', send_reply.node.name),
                                   ('addErrback', send_error.node.name)]
@@ -253,7 +285,7 @@ def run(ctx):
             continue
         it2 = Interp(prog, exc_edges=True,
                      inline=lambda q, d: q == H + '._send_err')
-        for p in it2.run(nf):
+        for p in it2.run(nf, dict(cb_args.get(nf.qualname, {}))):
             if p.outcome == 'raise':
                 if any(e[0] == 'exc-edge' for e in p.trace):
                     continue       # an exception escaping goes to errback
@@ -277,7 +309,8 @@ def run(ctx):
                            kind_, want_cls.split('.')[-1]), nontrivial=False)
                 b = check_addressing(ctx, nf.qualname, r, fmsg, kind_)
                 if kind_ == 'return':
-                    rv = ('param', nf.params()[0])
+                    rv = ('param', nf.params()[
+                        1 if nf.qualname in cb_args else 0])
                     seq = nret1 = None
                     extra = []
                     for cn, pol in p.cond:
